@@ -41,7 +41,7 @@ def demo_setup():
 def run_demo(info):
     crate, tname, pkg = info
     rc, o = sh("cargo test -p %s --offline --test %s 2>&1 | tail -15" % (pkg, tname))
-    ok = "test result: ok" in o and "FAILED" not in o and "error" not in o.split("test result")[0][-400:]
+    ok = "test result: ok" in o and "FAILED" not in o and not re.search(r"^error(\[|:)", o, re.M)
     return ok, o[-600:]
 
 
